@@ -27,6 +27,9 @@ pub struct Counters {
     constructed: AtomicUsize,
     cloned: AtomicUsize,
     dropped: AtomicUsize,
+    /// generations of the Clone tokens dropped so far (0 = a configured original, n = a clone of
+    /// generation n - 1)
+    dropped_generations: std::sync::Mutex<Vec<u32>>,
 }
 
 /// A non-Clone token.
@@ -53,13 +56,14 @@ impl Drop for Tok {
 #[derive(Debug)]
 pub struct CTok {
     id: u32,
+    generation: u32,
     c: Arc<Counters>,
 }
 
 impl CTok {
     fn new(id: u32, c: &Arc<Counters>) -> CTok {
         c.constructed.fetch_add(1, Ordering::SeqCst);
-        CTok { id, c: c.clone() }
+        CTok { id, generation: 0, c: c.clone() }
     }
 }
 
@@ -68,6 +72,7 @@ impl Clone for CTok {
         self.c.cloned.fetch_add(1, Ordering::SeqCst);
         CTok {
             id: self.id,
+            generation: self.generation + 1,
             c: self.c.clone(),
         }
     }
@@ -75,6 +80,7 @@ impl Clone for CTok {
 
 impl Drop for CTok {
     fn drop(&mut self) {
+        self.c.dropped_generations.lock().unwrap().push(self.generation);
         self.c.dropped.fetch_add(1, Ordering::SeqCst);
     }
 }
@@ -461,6 +467,15 @@ fn check_multi_use(shape: CShape, path: MultiPath, routing: &[u8], by_verify: bo
         }
         if dropped != 1 {
             return Err(format!("request {}: {dropped} tokens dropped, expected only the delivered clone", k + 1));
+        }
+        // what was delivered (and dropped by the caller just now) is a clone of the configured
+        // original - not the original itself, not a clone of a clone
+        let last_generation = c.dropped_generations.lock().unwrap().last().copied();
+        if last_generation != Some(1) {
+            return Err(format!(
+                "request {}: the delivered value has generation {last_generation:?} (0 = the configured original, 1 = a clone of it): the stored original must stay in the mock and every delivery is a clone of it",
+                k + 1
+            ));
         }
     }
     let head_delivered = (path == MultiPath::ThenAfterOnce && !routing.is_empty()) as usize;
